@@ -222,7 +222,7 @@ def build(read):
     f = parts.copy_item(b, read, "src/eval/mod.rs", "fn", "validate_args")
     sel = parts.selectors_text(b, variants, [f])
 
-    f = extract.rewrite_once(f, "args.to_owned()", "to_owned_exprs(args)", "validate_args: to_owned")
+    f = extract.rewrite_regex_once(f, r"\bargs\.(?:to_owned|to_vec)\(\)", "to_owned_exprs(args)", "validate_args: to_owned")
     f = extract.rewrite_regex_once(f, r"while let Some\((\w+)\) = queue\.pop_front\(\) \{",
                                    r"loop {\n        let \1 = match queue.pop_front() { Some(__x) => __x, None => break };",
                                    "validate_args: while-let")
